@@ -1,6 +1,6 @@
 (* Request handlers of the extracted driver: each takes text and returns one JSON line. *)
 From Coq Require Import String List NArith ZArith Bool Arith Ascii.
-From Tealer Require Import Tables LeafPrelude Leaves Syntax Parse Cfg StackAst Keys Analysis Domains Detect.
+From Tealer Require Import Tables LeafPrelude Leaves Syntax Parse Cfg StackAst Keys Analysis Domains Detect Regex.
 Import ListNotations.
 Open Scope string_scope.
 
@@ -156,4 +156,30 @@ Definition handle_parseline (version : N) (line : string) : string :=
             ("version", match ins_version i with Some v => string_of_N v | None => "null" end);
             ("mode", match ins_mode i with Some m => jstr (mode_str m) | None => "null" end);
             ("cost", match ins_cost version i with Some c => string_of_N c | None => "null" end)]
+  end.
+
+(* ---- regex: pattern lines, label, program *)
+Definition lines_of_positions (p : prog) (ks : list nat) : list nat :=
+  flat_map (fun k => match nth_error p k with Some i => [i_line i] | None => [] end) ks.
+
+Definition handle_regex (label : string) (pattern : string) (src : string) : string :=
+  match parse_program src with
+  | Err e => jobj [("err", jstr e)]
+  | Ok p =>
+      match parse_teal p with
+      | Err e => jobj [("err", jstr e)]
+      | Ok t =>
+          match map_res (fun l => parse_line l) (splitlines pattern) with
+          | Err e => jobj [("err", jstr e)]
+          | Ok os =>
+              let regex := flat_map (fun o => match o with Some i => [i] | None => [] end) os in
+              match match_regex big_fuel t label regex with
+              | Done (ms, cov) =>
+                  jobj [("matches", jlist (map (fun m => jnats (lines_of_positions (t_prog t) m)) ms));
+                        ("covered", jnats (sort_by Nat.ltb (dedup_adj Nat.eqb (sort_by Nat.ltb (lines_of_positions (t_prog t) cov)))))]
+              | Exn e => jobj [("err", jstr e)]
+              | OutOfFuel => jobj [("err", jstr "out-of-fuel")]
+              end
+          end
+      end
   end.
